@@ -131,6 +131,25 @@ def _grid_case(args):
             and np.array_equal(pf.filter(QPTS[ok, 0],
                                          QPTS[ok, 1].astype(np.float32)),
                                inside[ok]))
+        # vertices replaced after construction (setter / __setstate__):
+        # the filter must classify by its current vertices
+        pf2 = PolygonFilter(axes=("area_um", "deform"),
+                            points=[[0, 0], [0.5, 0], [0, 0.5]])
+        pf2.points = verts
+        st8 = pf2.__getstate__()
+        pf3 = PolygonFilter(axes=("area_um", "deform"),
+                            points=[[2.5, 2.5], [3, 2.5], [3, 3]],
+                            unique_id=st8["identifier"] + 1)
+        st8["identifier"] = pf3.unique_id
+        pf3.__setstate__(st8)
+        for how, pfx in (("points setter", pf2), ("__setstate__", pf3)):
+            if not np.array_equal(pfx.filter(QPTS[:, 0], QPTS[:, 1])[ok],
+                                  inside[ok]):
+                out.append(violation(
+                    PF + ".filter", "wrong-classification", case,
+                    f"vertices replaced through the {how}: the filter does "
+                    f"not classify by its current vertices",
+                    {"nv": nv, "variant": "vertices-replaced"}))
         if not mixed:
             out.append(violation(
                 PF + ".filter", "wrong-classification", case,
